@@ -41,6 +41,9 @@ def run(ck):
     for entry in (dec, sig):
         an = Analyzer(P, inline=lambda q: q.startswith(PR))
         an.watch_access = lambda b: b.startswith('buf_buffer')
+        # memory requested while decoding is backed by input: a length word cannot make the decoder reserve / resize beyond the
+        # bytes it was given (an escaping std::bad_alloc or std::length_error is an exception out of decode)
+        an.alloc_limit = lambda a_, st_: getattr(a_.param_values[0], 'length', None) if a_.param_values else None
         rets = an.run(entry)
         info['throws'] += an.throws
         info['unsupported'] += an.unsupported
@@ -156,6 +159,8 @@ def verbatim_violation(f, roots):
         if k == 'UnaryOperator' and nd.get('op') == '*':
             has_read = True
             continue
+        if k in ('CallExpr', 'CXXMemberCallExpr') and not (nd.get('callee') or '').startswith('std::'):
+            return 'the decoded value is passed through %s() before it is stored' % c
         if k == 'BinaryOperator' and nd.get('op') in ARITH or k == 'UnaryOperator' and nd.get('op') in ('~', '-') or k == 'CompoundAssignOperator':
             pt = (nd.get('t') or '')
             if pt.endswith('*'):
